@@ -1404,6 +1404,42 @@ def tb_mutate(rng, b):
     return bytes(b)
 
 
+def g_parse2(rng):
+    """two spellings of ONE well-formed description: t0 as the serialiser writes it, t1 with every layout freedom the property's
+    quantifier names ("nullary rules written with or without parentheses", blanks, tabs, CR, blank lines, trailing blanks)"""
+    syms = [(b"s%d" % i, rng.choice([0, 0, 1, 2])) for i in range(rng.randint(1, 4))]
+    if not any(r == 0 for _, r in syms):
+        syms.append((b"c", 0))
+    sts = [b"q%d" % i for i in range(rng.randint(1, 4))]
+    fin = [s for s in sts if rng.random() < 0.5]
+    rules = []
+    for _ in range(rng.randint(1, 6)):
+        s_, k = rng.choice(syms)
+        rules.append((s_, [rng.choice(sts) for _ in range(k)], rng.choice(sts)))
+
+    def ws(mn=0):
+        return bytes(rng.choice(b" \t") for _ in range(rng.choice([mn, mn, 1, 2, 5, 17])))
+
+    def render(fancy):
+        sp = (lambda mn=0: ws(mn)) if fancy else (lambda mn=0: b" " * mn)
+        eol = (lambda: rng.choice([b"\n", b"\r\n", b" \n", b"\t\n", b"\n\n", b"\n \t \n"])) if fancy else (lambda: b"\n")
+        out = sp() + b"Ops" + sp(1) + b"".join(a + b":" + str(r).encode() + sp(1) for a, r in syms) + eol()
+        out += sp() + b"Automaton" + sp(1) + b"A" + sp() + eol()
+        out += sp() + b"States" + sp(1) + b"".join(q + sp(1) for q in sts) + eol()
+        out += sp() + b"Final" + sp(1) + b"States" + sp(1) + b"".join(q + sp(1) for q in fin) + eol()
+        out += sp() + b"Transitions" + sp() + eol()
+        for (a, ks, q) in rules:
+            if ks:
+                lhs = a + sp() + b"(" + (sp() + b"," + sp()).join(sp() + k + sp() for k in ks) + b")"
+            elif fancy:
+                lhs = a + rng.choice([b"", b"()", b"( )", b"(\t)", b" ()", b"(  \t )", b" ( )"])
+            else:
+                lhs = a
+            out += sp() + lhs + sp() + b"->" + sp() + q + sp() + eol()
+        return out
+    return "parse2 " + render(False).hex() + " " + render(True).hex()
+
+
 def g_parse(rng):
     global _TB_FILES
     if _TB_FILES is None:
@@ -1612,7 +1648,7 @@ GENERATORS = {
     "tah_store": g_tah_store, "tah_hist": g_tah_hist,
     "lts": g_lts,
     "nfah_incl": g_nfah_incl, "nfah_inclsim": g_nfah_inclsim, "nfah_cli": g_nfah_cli, "nfah_ops": g_nfah_ops, "nfah_hist": g_nfah_hist,
-    "incl": g_incl, "inclall": g_inclall, "union": g_union, "unionpre": g_unionpre, "mapsx": g_mapsx, "uniondisj": g_uniondisj,
+    "incl": g_incl, "inclall": g_inclall, "union": g_union, "unionpre": g_unionpre, "mapsx": g_mapsx, "parse2": g_parse2, "uniondisj": g_uniondisj,
     "isect": g_isect, "isectbu": g_isectbu, "trim": g_trim, "cand": g_cand, "reduce": g_reduce, "simdown": g_simdown, "simup": g_simup,
     "compl": g_compl, "rename": g_rename,
 }
